@@ -60,7 +60,7 @@ var backends = []string{"hashmap", "bbolt", "fstree", "badger", "runtime"}
 // childSpecs is the fixed, seed-determined case list.
 func childSpecs(cfg vlib.Cfg) []spec {
 	var out []spec
-	rounds := cfg.N(1, 2)
+	rounds := 1 // the table is finite: repeating it only changes the random tokens
 	for round := 0; round < rounds; round++ {
 		for _, be := range backends {
 			for _, sd := range []bool{false, true} {
@@ -74,7 +74,7 @@ func childSpecs(cfg vlib.Cfg) []spec {
 			}
 		}
 	}
-	nh := cfg.N(2, 12)
+	nh := cfg.N(2, 32)
 	for _, be := range backends {
 		for h := 0; h < nh; h++ {
 			out = append(out, spec{Tier: cfg.Tier, Seed: cfg.Seed, Part: "hist", Backend: be, Shadow: h%2 == 1 && be != "runtime", Shard: h})
@@ -132,6 +132,8 @@ func main() {
 	if cfg.Replay == "" {
 		got := int(rep.Counter("cells_table") + rep.Counter("cells_reflag"))
 		rep.Floor(got == wantCells, "executed %d of %d table/reflag cells", got, wantCells)
+		dec := int(rep.Counter("cells_decided"))
+		rep.Floor(dec*10 >= wantCells*9, "only %d of %d table/reflag cells were decided (the rest is inconclusive)", dec, wantCells)
 		rep.Floor(rep.Counter("permitted_ok") > 0 && rep.Counter("refused_ok") > 0, "no permitted or no refused cell decided (permitted_ok=%d refused_ok=%d)", rep.Counter("permitted_ok"), rep.Counter("refused_ok"))
 		rep.Floor(rep.Counter("hist_ops") > 0, "no history operation executed")
 	}
